@@ -34,7 +34,7 @@ const B: usize = 3;
 const C: usize = 4;
 const FIRST_MALFORMED: usize = 5;
 const ZERO_KEY: usize = 8; // outcome unspecified by the statement
-const N_CANDS: usize = 15;
+const N_CANDS: usize = 17;
 
 fn candidates(keys: &Keys) -> (Vec<RawSet>, Vec<Option<SetSpec>>) {
     let sp = |s: &[(usize, u128)], t: u128, n: u8| SetSpec { signers: s.to_vec(), threshold: t, nonce: n };
@@ -60,6 +60,9 @@ fn candidates(keys: &Keys) -> (Vec<RawSet>, Vec<Option<SetSpec>>) {
         // the sum wraps at the first / in the middle and the wrapped total still reaches the threshold
         RawSet { signers: vec![(k[0], MAX), (k[1], 2), (k[2], 3)], threshold: 4, nonce: [28; 32] }, // 13
         RawSet { signers: vec![(k[0], 2), (k[1], MAX), (k[2], 3), (k[3], 1)], threshold: 5, nonce: [29; 32] }, // 14
+        // a repeated key whose weights ascend (a comparison of whole entries instead of keys would call this increasing), at the front and at the end
+        RawSet { signers: vec![(k[0], 1), (k[0], 2)], threshold: 2, nonce: [30; 32] },      // 15
+        RawSet { signers: vec![(k[0], 1), (k[1], 1), (k[1], 2)], threshold: 2, nonce: [31; 32] }, // 16
     ];
     for m in mal {
         cands.push(m);
@@ -418,7 +421,7 @@ fn main() {
         let mut o = Opts::new(tier, if thorough { 9 } else { 7 });
         o.min_depth = 3;
         o.xcheck = tier == "thorough";
-        o.rule = "retention 1 (thorough: also 0 and 2); construction through a factory with initial lists [], [I0], [I0,I1], [I0,I0], [I0,I1,I0], [I0,I1,A], [A,A,B], [I0,malformed_i], [malformed_i] (10 malformed shapes: empty, adjacent duplicate key, descending keys, all-zero key, zero weight, weights summing past u128 at the last / first / a middle signer with the wrapped total reaching the threshold, threshold 0, threshold total+1); then all rotation sequences over candidates {A,B,C(33 signers, threshold==total),I0,I1, 10 malformed} x proof source {latest, older retained, outdated, never-installed, latest-signing-another-candidate, latest-signing-under-the-approval-command-tag, latest with one entry listed twice} x bypass {no, operator, no auth, owner auth}; after every new state epoch(), signers_hash_by_epoch(e) for all e in 0..=epoch+1 and epoch_by_signers_hash(h) for all 15 candidate hashes are compared with the installed list".into();
+        o.rule = "retention 1 (thorough: also 0 and 2); construction through a factory with initial lists [], [I0], [I0,I1], [I0,I0], [I0,I1,I0], [I0,I1,A], [A,A,B], [I0,malformed_i], [malformed_i] (12 malformed shapes: empty, adjacent duplicate key with equal and with ascending weights (first and last position), descending keys, all-zero key, zero weight, weights summing past u128 at the last / first / a middle signer with the wrapped total reaching the threshold, threshold 0, threshold total+1); then all rotation sequences over candidates {A,B,C(33 signers, threshold==total),I0,I1, 12 malformed} x proof source {latest, older retained, outdated, never-installed, latest-signing-another-candidate, latest-signing-under-the-approval-command-tag, latest with one entry listed twice} x bypass {no, operator, no auth, owner auth}; after every new state epoch(), signers_hash_by_epoch(e) for all e in 0..=epoch+1 and epoch_by_signers_hash(h) for all 17 candidate hashes are compared with the installed list".into();
         (s, o)
     });
 }
